@@ -339,7 +339,7 @@ def climb(node, drv, at, acc=None, depth=0):
 
 
 # =========================================================================== C14.perturb
-@rule('C14.perturb', floor=5)
+@rule('C14.perturb', floor=4)
 def perturb(repo, out):
     """Each `T += step` is followed, in the same iteration, by self._exec() and exactly one `T -= step` on the same target."""
     for qn in DRIVERS:
@@ -503,3 +503,1537 @@ def extract(repo, out):
                             'imag(out)/h', key='extract-scale')
                     continue
                 out.ok(fn, stmt, 'imag(out * k), k * step == 1j, read after _exec() inside the perturbation')
+
+
+# =========================================================================== C14.slot
+def _loop_of_target(name, at, rd):
+    """The For statement whose target binds `name` as seen from cfg node `at` (unique), else None."""
+    ds = rd.defs(at, name)
+    if len(ds) != 1:
+        return None
+    d = next(iter(ds))
+    if d.kind == 'iter' and isinstance(d.ast, ast.For):
+        return d.ast
+    return None
+
+
+def _jac_store(st):
+    """For `partials[K] = E` / `partials[K][I] = E` return (K, I or None, E); else None."""
+    if not (isinstance(st, ast.Assign) and len(st.targets) == 1):
+        return None
+    t = st.targets[0]
+    idx = None
+    if isinstance(t, ast.Subscript) and isinstance(t.value, ast.Subscript):
+        idx, t = t.slice, t.value
+    if isinstance(t, ast.Subscript) and isinstance(t.value, ast.Name) and t.value.id == 'partials':
+        return t.slice, idx, st.value
+    return None
+
+
+def _full_slice(e):
+    return isinstance(e, ast.Slice) and e.lower is None and e.upper is None and e.step is None
+
+
+def _check_column_index(idx):
+    """('ok', name) for `[:, name]`; ('row', name) for `[name, :]`; else ('?', None)."""
+    if isinstance(idx, ast.Tuple) and len(idx.elts) == 2:
+        a, b = idx.elts
+        if _full_slice(a) and isinstance(b, ast.Name):
+            return 'ok', b
+        if _full_slice(b) and isinstance(a, ast.Name):
+            return 'row', a
+    return '?', None
+
+
+@rule('C14.slot', floor=9)
+def slot(repo, out):
+    """Results are stored under (of, wrt) = (output read, input perturbed) and in the column of the perturbed element."""
+    # ---------------------------------------------------------------- compute_partials
+    fn = repo.func(EC, 'ExecComp.compute_partials')
+    d = Driver(fn)
+    g, rd = d.g, d.rd
+    for a in d.adds:
+        reg = d.region(a)
+        r = root_name(a.ast.target)
+        inloop = _loop_of_target(r.id, a, rd) if r is not None and d.view_kind(a.ast.target, a) == 'view' else None
+        # the AugAssign itself redefines the view name; look through it
+        if inloop is None and r is not None:
+            for dn in rd.defs(a, r.id):
+                if dn.kind == 'iter':
+                    inloop = dn.ast
+        if inloop is None or not (isinstance(inloop.target, ast.Tuple) and len(inloop.target.elts) == 2
+                                  and isinstance(inloop.target.elts[0], ast.Name)):
+            out.unsure(fn, a.ast, 'loop binding the perturbed view and its input name not recognised')
+            continue
+        wname = inloop.target.elts[0].id
+        # element perturbation: counter of the enumerate loop
+        counter = None
+        elem = isinstance(a.ast.target, ast.Subscript)
+        if elem:
+            ix = a.ast.target.slice
+            eloop = _loop_of_target(ix.id, a, rd) if isinstance(ix, ast.Name) else None
+            if eloop is None or not (isinstance(eloop.iter, ast.Call) and astx.call_name(eloop.iter) == 'enumerate'
+                                     and isinstance(eloop.target, ast.Tuple) and len(eloop.target.elts) == 2
+                                     and all(isinstance(e, ast.Name) for e in eloop.target.elts)):
+                out.unsure(fn, a.ast, 'element loop is not `for i, idx in enumerate(...)`')
+                continue
+            if eloop.target.elts[1].id != ix.id:
+                out.bad(fn, a.ast, f'the perturbed element is indexed by the loop counter `{ix.id}` instead of '
+                        'the multi-index', key='element-index')
+                continue
+            if len(eloop.iter.args) != 1 or eloop.iter.keywords:
+                out.bad(fn, eloop, 'enumerate() does not start at 0: column index is shifted', key='column-index')
+                continue
+            src = eloop.iter.args[0]
+            if not (isinstance(src, ast.Call) and astx.call_name(src) == 'array_idx_iter' and len(src.args) == 1
+                    and isinstance(src.args[0], ast.Attribute) and src.args[0].attr == 'shape'
+                    and isinstance(src.args[0].value, ast.Name) and src.args[0].value.id == r.id):
+                out.unsure(fn, eloop, 'element loop does not iterate array_idx_iter(<perturbed view>.shape)')
+                continue
+            counter = eloop.target.elts[0].id
+        stores = 0
+        for n in sorted(reg, key=lambda n: n.id):
+            if n.kind != 'stmt':
+                continue
+            js = _jac_store(n.ast)
+            if js is None:
+                continue
+            stores += 1
+            K, I, E = js
+            # key
+            verdict = _check_key(K, n, rd, wname, fn, out)
+            if verdict is not True:
+                continue
+            # value comes from the view of the same output
+            of = K.elts[0].id
+            onames = [w for w in astx.walk(E) if isinstance(w, ast.Name) and w.id in set(d.out_defs().values())]
+            bad = False
+            for w in onames:
+                for dn in rd.defs(n, w.id):
+                    v = dn.ast.value if isinstance(dn.ast, ast.Assign) else None
+                    if isinstance(v, ast.Subscript) and not (isinstance(v.slice, ast.Name) and v.slice.id == of):
+                        out.bad(fn, n.ast, f'the value stored under of=`{of}` is read from the view of '
+                                f'`{astx.src(v.slice)}`', key='key-value-mismatch')
+                        bad = True
+            if bad:
+                continue
+            # membership guard uses the same key
+            guards = [x for x in astx.ancestors(n.ast) if isinstance(x, ast.If)]
+            gbad = False
+            for gd in guards:
+                t = gd.test
+                if isinstance(t, ast.Compare) and len(t.ops) == 1 and isinstance(t.ops[0], (ast.In, ast.NotIn)) and \
+                        isinstance(t.comparators[0], ast.Name) and t.comparators[0].id == 'partials':
+                    if not astx.same(t.left, K):
+                        out.bad(fn, gd, f'membership test `{astx.src(t)}` guards a store under a different key '
+                                f'`{astx.src(K)}`', key='key-guard-mismatch')
+                        gbad = True
+            if gbad:
+                continue
+            # column
+            if elem:
+                if I is None:
+                    out.bad(fn, n.ast, 'a single-element perturbation overwrites the whole sub-jacobian '
+                            'instead of one column', key='column-index')
+                    continue
+                kind, nm = _check_column_index(I)
+                if kind == '?':
+                    out.unsure(fn, n.ast, 'column index shape not recognised')
+                    continue
+                if kind == 'row':
+                    out.bad(fn, n.ast, 'the result of perturbing input element i is written to ROW i: the '
+                            'sub-jacobian is transposed', key='column-index')
+                    continue
+                if nm.id != counter:
+                    out.bad(fn, n.ast, f'column index `{nm.id}` is not the flat counter `{counter}` of the '
+                            'perturbed element', key='column-index')
+                    continue
+            else:
+                if I is not None:
+                    out.unsure(fn, n.ast, 'indexed store under a whole-array perturbation')
+                    continue
+            out.ok(fn, n.ast, f'stored under (output read, input perturbed)' + (f', column {counter}' if elem else ''))
+        if not stores:
+            out.bad(fn, a.ast, 'no sub-jacobian is written while this perturbation is in place', key='no-store')
+    # the names the `of` loop iterates
+    _check_out_names(fn, d, out)
+
+    # ---------------------------------------------------------------- _compute_colored_partials
+    fn = repo.func(EC, 'ExecComp._compute_colored_partials')
+    d = Driver(fn)
+    g, rd = d.g, d.rd
+    _check_out_names(fn, d, out)
+    for a in d.adds:
+        _colored(fn, d, a, out)
+
+    # ---------------------------------------------------------------- maps built by _compute_coloring
+    fn = repo.func(EC, 'ExecComp._compute_coloring')
+    want = {'self._col_idx2name': 'self._inputs', 'self._in_slices': 'self._inputs',
+            'self._out_slices': 'self._outputs'}
+    g = cfgm.build(fn)
+    rd = cfgm.ReachingDefs(g)
+    seen = set()
+    for n in g.where(lambda n: n.kind == 'stmt' and isinstance(n.ast, ast.Assign)):
+        for t in n.ast.targets:
+            p = astx.path(t)
+            if p not in want:
+                continue
+            seen.add(p)
+            v = n.ast.targets[-1] is t and n.ast.value
+            if isinstance(n.ast.value, ast.DictComp):
+                gens = n.ast.value.generators
+                src = astx.receiver(gens[0].iter) if isinstance(gens[0].iter, ast.Call) and \
+                    astx.callee_attr(gens[0].iter) == 'ranges' else None
+                sp = astx.path(src) if src is not None else None
+                if sp is None:
+                    out.unsure(fn, n.ast, 'slice map is not built from <vector>.ranges()')
+                elif sp != want[p]:
+                    out.bad(fn, n.ast, f'{p} is built from {sp}.ranges() instead of {want[p]}.ranges()',
+                            key='slice-map-source')
+                else:
+                    val = n.ast.value.value
+                    tg = gens[0].target
+                    if isinstance(val, ast.Call) and astx.call_name(val) == 'slice' and len(val.args) == 2 and \
+                            isinstance(tg, ast.Tuple) and len(tg.elts) == 3 and \
+                            [astx.dump(x) for x in val.args] != [astx.dump(x) for x in tg.elts[1:]]:
+                        out.bad(fn, n.ast, f'{p}: slice bounds are not (start, stop) of the range',
+                                key='slice-map-source')
+                    else:
+                        out.ok(fn, n.ast, f'{p} built from {sp}.ranges()')
+            else:
+                # list filled by a loop over ranges(): find the filling loop
+                alias = [x.id for x in n.ast.targets if isinstance(x, ast.Name)]
+                fills = [m for m in g.where(lambda m: m.kind == 'stmt' and isinstance(m.ast, ast.Assign)
+                                            and isinstance(m.ast.targets[0], ast.Subscript)
+                                            and isinstance(m.ast.targets[0].value, ast.Name)
+                                            and m.ast.targets[0].value.id in alias)]
+                if len(fills) != 1:
+                    out.unsure(fn, n.ast, 'filling loop of the column -> name map not recognised')
+                    continue
+                f = fills[0]
+                ls = loops_around(f.ast)
+                rng = [l for l in ls if isinstance(l, ast.For) and isinstance(l.iter, ast.Call)
+                       and astx.callee_attr(l.iter) == 'ranges']
+                if not rng:
+                    out.unsure(fn, f.ast, 'column -> name map is not filled from <vector>.ranges()')
+                    continue
+                sp = astx.path(astx.receiver(rng[0].iter))
+                if sp != want[p]:
+                    out.bad(fn, f.ast, f'{p} is filled from {sp}.ranges() instead of {want[p]}.ranges(): '
+                            'columns are attributed to the wrong variables', key='slice-map-source')
+                    continue
+                inner = ls[0]
+                tg = rng[0].target
+                okr = isinstance(inner, ast.For) and inner is not rng[0] and isinstance(inner.iter, ast.Call) and \
+                    astx.call_name(inner.iter) == 'range' and isinstance(tg, ast.Tuple) and len(tg.elts) == 3 and \
+                    [astx.dump(x) for x in inner.iter.args] == [astx.dump(x) for x in tg.elts[1:]] and \
+                    astx.same(f.ast.targets[0].slice, inner.target)
+                if not okr:
+                    out.bad(fn, f.ast, f'{p}: entries start..stop of each input are not all assigned its name',
+                            key='slice-map-source')
+                else:
+                    out.ok(fn, f.ast, f'{p}[start:stop] = name for each range of {sp}')
+    for p in want:
+        if p not in seen:
+            out.bad(fn, fn.node, f'{p} is never built although _compute_colored_partials reads it',
+                    key='slice-map-source')
+
+
+def _check_key(K, n, rd, wname, fn, out):
+    if not (isinstance(K, ast.Tuple) and len(K.elts) == 2 and all(isinstance(e, ast.Name) for e in K.elts)):
+        out.unsure(fn, n.ast, 'sub-jacobian key is not a literal (of, wrt) pair of names')
+        return None
+    of, wrt = K.elts[0].id, K.elts[1].id
+    if of == wname:
+        out.bad(fn, n.ast, f'key `{astx.src(K)}` has the perturbed input `{wname}` in the `of` position: '
+                '(wrt, of) is never a declared partial, the derivative stays zero', key='key-order')
+        return False
+    if wrt != wname:
+        out.bad(fn, n.ast, f'key `{astx.src(K)}`: wrt is `{wrt}` but the perturbed input is `{wname}`',
+                key='key-order')
+        return False
+    return True
+
+
+def _check_out_names(fn, d, out):
+    """Loops `for u in out_names` must iterate self._var_rel_names['output']."""
+    for n in d.g.where(lambda n: n.kind == 'iter' and isinstance(n.ast, ast.For)):
+        it = n.ast.iter
+        p = rpath(d.rd, n, it)
+        if p and p.startswith('self._var_rel_names['):
+            if p == "self._var_rel_names['output']":
+                out.ok(fn, n.ast, 'of-names iterate the outputs')
+            else:
+                out.bad(fn, n.ast, f'the `of` loop iterates {p}: no (of, wrt) key matches, all partials stay '
+                        'zero', key='of-names')
+
+
+def _colored(fn, d, a, out):
+    g, rd = d.g, d.rd
+    tgt = a.ast.target
+    if not (isinstance(tgt, ast.Subscript) and isinstance(tgt.slice, ast.Name) and d.view_kind(tgt, a) == 'inarr'):
+        out.unsure(fn, a.ast, 'colored perturbation is not `inarr[icols] += step`')
+        return
+    cols = tgt.slice.id
+    cloop = _loop_of_target(cols, a, rd)
+    if cloop is None or not (isinstance(cloop.iter, ast.Call) and astx.callee_attr(cloop.iter) == 'color_nonzero_iter'
+                             and isinstance(cloop.target, ast.Tuple) and len(cloop.target.elts) == 2
+                             and all(isinstance(e, ast.Name) for e in cloop.target.elts)):
+        out.unsure(fn, a.ast, 'color loop `for icols, nzrowlists in ...color_nonzero_iter(dir)` not recognised')
+        return
+    if cloop.target.elts[0].id != cols:
+        out.bad(fn, a.ast, f'`{cols}` holds the nonzero-row lists of the color, not its columns: rows of the '
+                'input array are perturbed', key='color-columns')
+        return
+    rowlists = cloop.target.elts[1].id
+    dirn = astx.arg(cloop.iter, 0, 'direction')
+    if astx.const_str(dirn) is None:
+        out.unsure(fn, cloop, 'coloring direction is not a literal')
+        return
+    if astx.const_str(dirn) != 'fwd':
+        out.bad(fn, cloop, f"inputs (columns) are perturbed but the {astx.const_str(dirn)!r} colors group rows",
+                key='color-direction')
+        return
+    if rpath(rd, g.nodes_of(cloop)[0], astx.receiver(cloop.iter)) != 'self._coloring_info.coloring':
+        out.unsure(fn, cloop, 'coloring object is not self._coloring_info.coloring')
+        return
+    out.ok(fn, cloop, "perturbs the columns of each 'fwd' color of self._coloring_info.coloring")
+    # inner zip loop
+    zl = [l for l in astx.walk_stmts(cloop.body) if isinstance(l, ast.For) and isinstance(l.iter, ast.Call)
+          and astx.call_name(l.iter) == 'zip']
+    if len(zl) != 1 or not (isinstance(zl[0].target, ast.Tuple) and len(zl[0].target.elts) == 2 and
+                            len(zl[0].iter.args) == 2 and
+                            all(isinstance(e, ast.Name) for e in list(zl[0].target.elts) + list(zl[0].iter.args))):
+        out.unsure(fn, cloop, 'inner `for icol, rows in zip(icols, nzrowlists)` not recognised')
+        return
+    z = zl[0]
+    pairs = dict(zip([x.id for x in z.iter.args], [x.id for x in z.target.elts]))
+    if set(pairs) != {cols, rowlists}:
+        out.bad(fn, z, f'zip iterates {sorted(pairs)} instead of the color\'s columns and row lists',
+                key='zip-order')
+        return
+    icol, rows = pairs[cols], pairs[rowlists]
+    zbody = list(astx.walk_stmts(z.body))
+    # gather: scratch[rows] = X[rows], X = extraction
+    gath = [s for s in zbody if isinstance(s, ast.Assign) and isinstance(s.targets[0], ast.Subscript)
+            and isinstance(s.value, ast.Subscript) and isinstance(s.targets[0].value, ast.Name)
+            and isinstance(s.value.value, ast.Name)]
+    stores = [s for s in zbody if _jac_store(s) is not None]
+    if len(gath) != 1 or len(stores) != 1:
+        out.unsure(fn, z, 'gather `scratch[rows] = imag_oar[rows]` / single store not recognised')
+        return
+    gs = gath[0]
+    scratch = gs.targets[0].value.id
+    i1, i2 = gs.targets[0].slice, gs.value.slice
+    if not (isinstance(i1, ast.Name) and isinstance(i2, ast.Name)):
+        out.unsure(fn, gs, 'gather indices are not plain names')
+        return
+    if i1.id != rows or i2.id != rows:
+        which = i1.id if i1.id != rows else i2.id
+        why = 'the column indices' if which in (icol, cols) else f'`{which}`'
+        out.bad(fn, gs, f'nonzero rows of column `{icol}` are `{rows}` but the gather uses {why}',
+                key='zip-order' if which in (icol, cols, rowlists) else 'gather-rows')
+        return
+    gn = g.nodes_of(gs)[0]
+    srcdefs = rd.defs(gn, gs.value.value.id)
+    okd = False
+    for sd in srcdefs:
+        if sd.kind == 'stmt' and isinstance(sd.ast, ast.Assign):
+            if any(isinstance(w, (ast.Call, ast.Attribute)) and
+                   (astx.call_name(w) in IMAG_FUNCS if isinstance(w, ast.Call) else w.attr == 'imag')
+                   for w in astx.walk(sd.ast.value)) and sd in d.region(a):
+                okd = True
+    if not okd or len(srcdefs) != 1:
+        out.bad(fn, gs, f'`{gs.value.value.id}` gathered into the scratch column is not the imag() extraction '
+                'of this color\'s evaluation', key='gather-source')
+        return
+    out.ok(fn, gs, f'rows of column {icol} gathered from the extraction of this color')
+    # store
+    st = stores[0]
+    K, I, E = _jac_store(st)
+    sn = g.nodes_of(st)[0]
+    Kv, Kat = resolve(rd, sn, K)
+    if not (isinstance(Kv, ast.Tuple) and len(Kv.elts) == 2 and all(isinstance(e, ast.Name) for e in Kv.elts)):
+        out.unsure(fn, st, 'key of the colored store not recognised')
+        return
+    of, wrt = Kv.elts[0].id, Kv.elts[1].id
+    # wrt resolves to idx2name[icol]
+    def is_name_of_col(nm, at):
+        v, at2 = resolve(rd, at, ast.Name(id=nm, ctx=ast.Load()))
+        return isinstance(v, ast.Subscript) and rpath(rd, at2, v.value) == 'self._col_idx2name' and \
+            isinstance(v.slice, ast.Name) and v.slice.id == icol
+    ofl = _loop_of_target(of, Kat, rd)
+    wrl = _loop_of_target(wrt, Kat, rd)
+    if is_name_of_col(of, Kat) and wrl is not None:
+        out.bad(fn, st, f'key `{astx.src(Kv)}` is (wrt, of): never a declared partial, the colored jacobian '
+                'stays zero', key='key-order')
+        return
+    if not is_name_of_col(wrt, Kat) or ofl is None:
+        out.unsure(fn, st, 'key is not (loop over outputs, self._col_idx2name[icol])')
+        return
+    # guard
+    for gd in [x for x in astx.ancestors(st) if isinstance(x, ast.If)]:
+        t = gd.test
+        if isinstance(t, ast.Compare) and len(t.ops) == 1 and isinstance(t.ops[0], ast.In) and \
+                astx.path(t.comparators[0]) == 'partials' and not astx.same(t.left, K) and \
+                not astx.same(resolve(rd, sn, t.left)[0], Kv):
+            out.bad(fn, gd, 'membership test and store use different keys', key='key-guard-mismatch')
+            return
+    # column = icol - in_slices[wrt].start
+    kind, cn = _check_column_index(I) if I is not None else ('?', None)
+    if kind == 'row':
+        out.bad(fn, st, 'the column result is written to a row: the sub-jacobian is transposed', key='column-index')
+        return
+    if kind != 'ok':
+        out.unsure(fn, st, 'column index of the colored store not recognised')
+        return
+    cv, cat = resolve(rd, sn, cn)
+    good = isinstance(cv, ast.BinOp) and isinstance(cv.op, ast.Sub) and isinstance(cv.left, ast.Name) and \
+        cv.left.id == icol and isinstance(cv.right, ast.Attribute) and cv.right.attr == 'start' and \
+        isinstance(cv.right.value, ast.Subscript) and \
+        rpath(rd, cat, cv.right.value.value) == 'self._in_slices' and \
+        isinstance(cv.right.value.slice, ast.Name) and cv.right.value.slice.id == wrt
+    if not good:
+        if isinstance(cv, (ast.BinOp, ast.Name)) and (astx.mentions(cv, icol) or astx.mentions(cv, 'start', 'stop')):
+            out.bad(fn, astx.stmt_of(cv) if hasattr(cv, '_parent') else st,
+                    f'local column `{astx.src(cv)}` is not `{icol} - self._in_slices[{wrt}].start`',
+                    key='column-index')
+        else:
+            out.unsure(fn, st, 'local column expression not recognised')
+        return
+    # part = scratch[out_slices[of]]
+    pv, pat = resolve(rd, sn, E)
+    goodp = isinstance(pv, ast.Subscript) and isinstance(pv.value, ast.Name) and pv.value.id == scratch and \
+        isinstance(pv.slice, ast.Subscript) and rpath(rd, pat, pv.slice.value) == 'self._out_slices' and \
+        isinstance(pv.slice.slice, ast.Name)
+    if not goodp:
+        out.unsure(fn, st, 'stored value is not `scratch[self._out_slices[of]]`')
+        return
+    if pv.slice.slice.id != of:
+        out.bad(fn, st, f'rows of `{pv.slice.slice.id}` are stored under of=`{of}`', key='key-value-mismatch')
+        return
+    out.ok(fn, st, f'partials[(of, name of column)][:, icol - start] = scratch rows of `of`')
+    # scratch hygiene: between the store and the next gather the stored rows are cleared
+    def is_clear(n):
+        if n.kind != 'stmt' or not isinstance(n.ast, ast.Assign) or len(n.ast.targets) != 1:
+            return False
+        t, v = n.ast.targets[0], n.ast.value
+        if not (isinstance(v, ast.Constant) and v.value == 0 and not isinstance(v.value, bool)):
+            return False
+        if not isinstance(t, ast.Subscript):
+            return False
+        base = t.value
+        if isinstance(base, ast.Name) and base.id == scratch:
+            return _full_slice(t.slice) or (isinstance(t.slice, ast.Name) and t.slice.id == rows)
+        if isinstance(base, ast.Name) and isinstance(E, ast.Name) and base.id == E.id and _full_slice(t.slice):
+            return True
+        return False
+    clears = g.where(is_clear)
+    zh = g.nodes_of(z)
+    w = g.path(g.normal_succ(sn), g.nodes_of(gs), avoid=clears, labels=cfgm.noexc)
+    if w is not None:
+        out.bad(fn, st, 'rows gathered for one column are still in the scratch array when the next column of '
+                'the same color is stored: extra nonzeros leak into other columns: ' + g.fmt_path(w),
+                key='scratch-not-cleared')
+        return
+    # and the scratch starts clean for each color
+    ch = g.nodes_of(cloop)
+    w = g.path([g.entry], g.nodes_of(gs), avoid=clears, labels=cfgm.noexc)
+    if w is not None:
+        # allocation with zeros is also fine
+        alloc = rd.defs(gn, scratch)
+        zeros = all(x.kind == 'stmt' and isinstance(x.ast, ast.Assign) and isinstance(x.ast.value, ast.Call) and
+                    astx.call_name(x.ast.value) in ('np.zeros', 'numpy.zeros', 'zeros') for x in alloc)
+        if not zeros:
+            out.bad(fn, gs, 'scratch array is used uninitialised (np.empty) for the first column',
+                    key='scratch-not-cleared')
+            return
+    out.ok(fn, st, 'scratch rows are cleared between columns')
+
+
+# =========================================================================== C14.declare / C14.diag
+def _is_super_decl(e, rd, at):
+    """True if e (callee expr) is super().declare_partials (possibly through a local alias)."""
+    v, _ = resolve(rd, at, e)
+    return isinstance(v, ast.Attribute) and v.attr == 'declare_partials' and isinstance(v.value, ast.Call) and \
+        astx.call_name(v.value) == 'super'
+
+
+class DeclLoop:
+    """The declaration loop nest of ExecComp._setup_partials."""
+
+    def __init__(self, fn):
+        self.fn = fn
+        self.g = g = cfgm.build(fn)
+        self.rd = rd = cfgm.ReachingDefs(g)
+        self.decls = []
+        for n in g.nodes:
+            if n.kind != 'stmt':
+                continue
+            for c in n.calls():
+                if _is_super_decl(c.func, rd, n):
+                    self.decls.append((n, c))
+        if not self.decls:
+            raise AnalysisError(f'{fn.ident}: no call of super().declare_partials found')
+        loops = None
+        for n, c in self.decls:
+            ls = [l for l in loops_around(n.ast)]
+            if loops is None:
+                loops = ls
+            elif [id(x) for x in ls] != [id(x) for x in loops]:
+                raise AnalysisError(f'{fn.ident}: declare_partials calls are not all in the same loop nest')
+        self.loops = loops          # innermost first
+        if len(loops) != 3 or not all(isinstance(l, ast.For) for l in loops):
+            raise AnalysisError(f'{fn.ident}: expected a 3-deep for nest around declare_partials, found {len(loops)}')
+        self.expr_loop = loops[2]
+        self.inner = loops[0]
+
+
+def _size_env_eval(e, env, rd, at, depth=0):
+    """Evaluate a boolean/int expression over env: {'H': bool, roles: {name: (is_array, size)}}."""
+    if depth > 12:
+        raise Unknown(e)
+    if isinstance(e, ast.Constant) and isinstance(e.value, (bool, int)):
+        return e.value
+    if isinstance(e, ast.BoolOp):
+        vals = [_size_env_eval(v, env, rd, at, depth + 1) for v in e.values]
+        return all(vals) if isinstance(e.op, ast.And) else any(vals)
+    if isinstance(e, ast.UnaryOp) and isinstance(e.op, ast.Not):
+        return not _size_env_eval(e.operand, env, rd, at, depth + 1)
+    if isinstance(e, ast.Subscript) and astx.path(e.value) == 'self.options' and \
+            astx.const_str(e.slice) == 'has_diag_partials':
+        return env['H']
+    if isinstance(e, ast.Name):
+        if e.id in env['roles']:
+            raise Unknown(e)
+        v, at2 = resolve(rd, at, e)
+        if v is e or isinstance(v, ast.Name):
+            raise Unknown(e)
+        return _size_env_eval(v, env, rd, at2, depth + 1)
+    if isinstance(e, ast.Attribute) and e.attr == 'size':
+        role = env['role_of'](e.value, at)
+        if role is None:
+            raise Unknown(e)
+        return env['roles'][role][1]
+    if isinstance(e, ast.Call) and astx.call_name(e) == 'isinstance' and len(e.args) == 2:
+        role = env['role_of'](e.args[0], at)
+        ty = astx.path(e.args[1])
+        if role is None or ty not in ('ndarray', 'np.ndarray', 'numpy.ndarray'):
+            raise Unknown(e)
+        return env['roles'][role][0]
+    if isinstance(e, ast.Call) and astx.call_name(e) == 'len' and len(e.args) == 1:
+        role = env['role_of'](e.args[0], at)
+        if role is None:
+            raise Unknown(e)
+        return env['roles'][role][1]
+    if isinstance(e, ast.Compare) and len(e.ops) == 1:
+        a = _size_env_eval(e.left, env, rd, at, depth + 1)
+        b = _size_env_eval(e.comparators[0], env, rd, at, depth + 1)
+        op = type(e.ops[0])
+        table = {ast.Lt: a < b, ast.LtE: a <= b, ast.Gt: a > b, ast.GtE: a >= b, ast.Eq: a == b, ast.NotEq: a != b}
+        if op not in table:
+            raise Unknown(e)
+        return table[op]
+    raise Unknown(e)
+
+
+def _walk_outcomes(g, start, stop, env, rd, classify):
+    """Follow the CFG from `start` evaluating tests in env until `classify(node)` returns an outcome or a
+    node in `stop` is reached ('none').  Returns the set of outcomes."""
+    outs = set()
+    seen = set()
+    stack = [start]
+    while stack:
+        n = stack.pop()
+        if n in seen:
+            continue
+        seen.add(n)
+        if n is g.raise_exit or n.kind == 'raise' or (n.kind == 'stmt' and isinstance(n.ast, ast.Raise)):
+            outs.add('raise')
+            continue
+        o = classify(n)
+        if o is not None:
+            outs.add(o)
+            continue
+        if n in stop or n is g.exit:
+            outs.add('none')
+            continue
+        if n.kind == 'test':
+            v = _size_env_eval(n.ast.test, env, rd, n)
+            for m, lab in g.succ[n]:
+                if (lab == 'true' and v) or (lab == 'false' and not v):
+                    stack.append(m)
+        elif n.kind == 'iter':
+            # loops over the elements of a non-empty array run at least once
+            for m, lab in g.succ[n]:
+                if lab == 'true':
+                    stack.append(m)
+        else:
+            for m, lab in g.succ[n]:
+                if lab != 'exc':
+                    stack.append(m)
+    return outs
+
+
+STATES = [(H, (ia, isz), (oa, osz))
+          for H in (False, True)
+          for ia, isz in ((True, 1), (True, 3), (False, 1))
+          for oa, osz in ((True, 1), (True, 3), (True, 5), (False, 1))]
+
+
+def _fmt_state(s):
+    H, (ia, isz), (oa, osz) = s
+    f = lambda a, z: ('size-%d array' % z) if a else 'python scalar'
+    return f'has_diag_partials={H}, input {f(ia, isz)}, output {f(oa, osz)}'
+
+
+def _declared_kinds(dl, out=None):
+    """state -> 'diag' | 'dense' | 'raise' | 'none' for the declaration loop."""
+    g, rd = dl.g, dl.rd
+    inner = dl.inner
+    hdr = g.nodes_of(inner)[0]
+    body_entry = [m for m, lab in g.succ[hdr] if lab == 'true']
+    inp_var = inner.target.id if isinstance(inner.target, ast.Name) else None
+    out_loop = dl.loops[1]
+    out_var = out_loop.target.id if isinstance(out_loop.target, ast.Name) else None
+
+    def role_of(e, at):
+        v, at2 = resolve(rd, at, e)
+        # nodes[('i', ... + inp)]['attrs'].val
+        for w in astx.walk(v):
+            if isinstance(w, ast.Tuple) and len(w.elts) == 2 and astx.const_str(w.elts[0]) in ('i', 'o'):
+                io = astx.const_str(w.elts[0])
+                nm = astx.names(w.elts[1])
+                if io == 'i' and inp_var in nm:
+                    return 'in'
+                if io == 'o' and out_var in nm:
+                    return 'out'
+                return None
+        return None
+
+    def classify(n):
+        if n.kind != 'stmt':
+            return None
+        for dn, c in dl.decls:
+            if dn is n:
+                dg = astx.kwarg(c, 'diagonal')
+                if any(astx.kwarg(c, k) is not None for k in ('rows', 'cols', 'val')):
+                    raise Unknown(c)
+                if dg is None:
+                    return 'dense'
+                return 'diag' if _size_env_eval(dg, classify.env, rd, n) else 'dense'
+        return None
+    res = {}
+    for s in STATES:
+        env = dict(H=s[0], roles={'in': s[1], 'out': s[2]}, role_of=role_of)
+        classify.env = env
+        o = _walk_outcomes(g, body_entry[0], {hdr}, env, rd, classify)
+        res[s] = o
+    return res
+
+
+@rule('C14.declare', floor=4)
+def declare(repo, out):
+    """_setup_partials declares (of=out, wrt=inp) for every output and every right-hand-side variable of every expression, before the framework resolves the declarations."""
+    fn = repo.func(EC, 'ExecComp._setup_partials')
+    dl = DeclLoop(fn)
+    g, rd = dl.g, dl.rd
+    eloop, oloop, iloop = dl.loops[2], dl.loops[1], dl.loops[0]
+    # expression loop
+    ok = True
+    if not (astx.path(eloop.iter) == 'self._exprs_info' and isinstance(eloop.target, ast.Tuple) and
+            len(eloop.target.elts) == 3 and all(isinstance(e, ast.Name) for e in eloop.target.elts)):
+        out.unsure(fn, eloop, 'outer loop is not `for outs, vs, _ in self._exprs_info`')
+        return
+    outs_v, vs_v = eloop.target.elts[0].id, eloop.target.elts[1].id
+    loops = {}
+    for l in (oloop, iloop):
+        if not isinstance(l.target, ast.Name):
+            out.unsure(fn, l, 'loop target is not a plain name')
+            return
+        hn = g.nodes_of(l)[0]
+        it, at = resolve(rd, hn, l.iter)
+        while isinstance(it, ast.Call) and astx.call_name(it) in ('sorted', 'list', 'tuple', 'set') and len(it.args) == 1:
+            it, at = resolve(rd, at, it.args[0])
+        loops[l.target.id] = (l, it, at)
+    role = {}
+    for var, (l, it, at) in loops.items():
+        nm = astx.names(it)
+        if isinstance(it, ast.Name) and it.id == outs_v:
+            role[var] = 'of'
+        elif vs_v in nm:
+            # vs, set(vs).difference(outs), vs - outs ... but not outs.difference(vs)
+            good = (isinstance(it, ast.Name)) or \
+                (isinstance(it, ast.Call) and astx.callee_attr(it) == 'difference' and
+                 vs_v in astx.names(astx.receiver(it)) and outs_v not in astx.names(astx.receiver(it))) or \
+                (isinstance(it, ast.BinOp) and isinstance(it.op, ast.Sub) and vs_v in astx.names(it.left)
+                 and outs_v not in astx.names(it.left)) or \
+                (isinstance(it, ast.Call) and astx.call_name(it) == 'set' and False)
+            if good:
+                role[var] = 'wrt'
+            elif isinstance(it, (ast.Call, ast.BinOp)) and outs_v in nm:
+                out.bad(fn, l, f'`{astx.src(it)}` is not the set of right-hand-side variables of the expression',
+                        key='declare-wrt-set')
+                ok = False
+            else:
+                out.unsure(fn, l, 'input set of the expression not recognised')
+                return
+        elif outs_v in nm:
+            out.bad(fn, l, f'`{l.target.id}` iterates `{astx.src(it)}`: the right-hand-side variables `{vs_v}` of '
+                    'the expression are not declared as wrt', key='declare-wrt-set')
+            ok = False
+        else:
+            out.unsure(fn, l, 'loop does not iterate the outputs or variables of the expression')
+            return
+    if not ok:
+        return
+    if sorted(role.values()) != ['of', 'wrt']:
+        out.bad(fn, oloop, 'the two loops do not iterate outputs x inputs of the expression', key='declare-wrt-set')
+        return
+    out.ok(fn, eloop, 'for every expression: outputs x (rhs variables - outputs)')
+    # no filter between loops and declaration
+    for st in astx.walk_stmts(eloop.body):
+        if isinstance(st, (ast.Continue, ast.Break, ast.Return)):
+            out.bad(fn, st, f'`{astx.src(st)}` inside the declaration loops skips (out, inp) pairs: undeclared '
+                    'partials are treated as zero', key='declare-filter')
+            ok = False
+    # of / wrt arguments
+    for n, c in dl.decls:
+        of = astx.arg(c, 0, 'of')
+        wrt = astx.arg(c, 1, 'wrt')
+        if not (isinstance(of, ast.Name) and isinstance(wrt, ast.Name) and of.id in role and wrt.id in role):
+            out.unsure(fn, n.ast, 'of/wrt of the declaration are not the loop variables')
+            ok = False
+            continue
+        if role[of.id] != 'of' or role[wrt.id] != 'wrt':
+            out.bad(fn, n.ast, f'declares of=`{of.id}` (a {role[of.id]} name) wrt=`{wrt.id}` (a {role[wrt.id]} name): '
+                    'of and wrt are swapped', key='declare-of-wrt')
+            ok = False
+            continue
+        m = astx.kwarg(c, 'method')
+        if m is not None:
+            out.unsure(fn, n.ast, 'declaration with an approximation method')
+            ok = False
+            continue
+        out.ok(fn, n.ast, 'declare_partials(of=<output>, wrt=<input>)')
+    if not ok:
+        return
+    # the nest is only conditional on `not self._manual_decl_partials`
+    for a in astx.ancestors(eloop):
+        if a is fn.node:
+            break
+        if isinstance(a, ast.If):
+            t = a.test
+            in_body = eloop in a.body or any(astx.in_body(eloop, a, 'body') for _ in (0,))
+            is_manual = (isinstance(t, ast.UnaryOp) and isinstance(t.op, ast.Not) and
+                         astx.path(t.operand) == 'self._manual_decl_partials' and in_body) or \
+                        (astx.path(t) == 'self._manual_decl_partials' and not in_body)
+            if is_manual:
+                continue
+            if astx.mentions(t, 'do_coloring', 'has_diag_partials', '_coloring_declared', '_has_distrib_vars',
+                             'sizes', '_var_sizes'):
+                out.bad(fn, a, f'the declaration loops only run when `{astx.src(t)}`: otherwise no partial is '
+                        'declared and the jacobian is zero', key='declare-conditional')
+            else:
+                out.unsure(fn, a, 'declaration loops are under an unrecognised condition')
+            return
+        elif isinstance(a, (ast.For, ast.While, ast.Try, ast.With)):
+            out.unsure(fn, a, 'declaration loops are nested in an unrecognised construct')
+            return
+    # every path through the innermost body declares exactly once (or raises)
+    hdr = g.nodes_of(iloop)[0]
+    body_entry = [m for m, lab in g.succ[hdr] if lab == 'true']
+    dnodes = [n for n, _ in dl.decls]
+    w = g.path(body_entry, [hdr], avoid=dnodes, labels=cfgm.noexc)
+    if w is not None:
+        out.bad(fn, iloop, 'an (out, inp) pair can pass the loop body without being declared: ' + g.fmt_path(w),
+                key='declare-filter')
+        return
+    # ORDER: before super()._setup_partials()
+    sup = [n for n in g.calling('_setup_partials') if any(
+        astx.callee_attr(c) == '_setup_partials' and isinstance(astx.receiver(c), ast.Call) and
+        astx.call_name(astx.receiver(c)) == 'super' for c in n.calls())]
+    if not sup:
+        out.bad(fn, fn.node, 'super()._setup_partials() is never called: declarations are never resolved',
+                key='declare-order')
+        return
+    ehdr = g.nodes_of(eloop)[0]
+    late = g.reach([m for s_ in sup for m in g.normal_succ(s_)], labels=cfgm.noexc)
+    if ehdr in late:
+        out.bad(fn, eloop, 'partials are declared after super()._setup_partials() has already resolved the '
+                'declarations', key='declare-order')
+        return
+    out.ok(fn, sup[0].ast, 'declarations precede super()._setup_partials(); each pair declared once')
+
+
+def _perturb_modes(repo):
+    """state -> {'whole', 'elem', ...} chosen by compute_partials, plus the function and driver."""
+    fn = repo.func(EC, 'ExecComp.compute_partials')
+    d = Driver(fn)
+    g, rd = d.g, d.rd
+    views = [a for a in d.adds if d.view_kind(a.ast.target, a) == 'view']
+    if not views:
+        raise AnalysisError(f'{fn.ident}: no perturbation of an input view')
+    inloops = {id(loops_around(a.ast)[-1]): loops_around(a.ast)[-1] for a in views if loops_around(a.ast)}
+    if len(inloops) != 1:
+        raise AnalysisError(f'{fn.ident}: perturbations are not in one loop over the inputs')
+    inloop = next(iter(inloops.values()))
+    hdr = g.nodes_of(inloop)[0]
+    body_entry = [m for m, lab in g.succ[hdr] if lab == 'true']
+    vname = root_name(views[0].ast.target).id
+
+    def role_of(e, at):
+        if isinstance(e, ast.Name) and e.id == vname:
+            return 'in'
+        v, _ = resolve(rd, at, e)
+        if isinstance(v, ast.Name) and v.id == vname:
+            return 'in'
+        return None
+
+    def classify(n):
+        if n in d.adds:
+            return 'whole' if isinstance(n.ast.target, ast.Name) else 'elem'
+        return None
+    res = {}
+    for s in STATES:
+        env = dict(H=s[0], roles={'in': s[1], 'out': s[2]}, role_of=role_of)
+        res[s] = _walk_outcomes(g, body_entry[0], {hdr}, env, rd, classify)
+    # stores inside a whole perturbation may be conditional only on membership / scalar-ness
+    for a in views:
+        if isinstance(a.ast.target, ast.Name):
+            for n in d.region(a):
+                if n.kind == 'test' and isinstance(n.ast, ast.If):
+                    t = n.ast.test
+                    if isinstance(t, ast.Compare) and isinstance(t.ops[0], (ast.In, ast.NotIn)):
+                        continue
+                    if isinstance(t, ast.Name) and 'scalar' in t.id:
+                        continue
+                    raise Unknown(t)
+    return fn, d, res, inloop
+
+
+@rule('C14.diag', floor=1)
+def diag(repo, out):
+    """The kind of partial declared for (out, inp) (diagonal / dense) agrees with the perturbation mode compute_partials uses for inp, for every combination of has_diag_partials and sizes."""
+    fdecl = repo.func(EC, 'ExecComp._setup_partials')
+    dl = DeclLoop(fdecl)
+    try:
+        D = _declared_kinds(dl)
+    except Unknown as u:
+        out.unsure(fdecl, astx.stmt_of(u.node) if isinstance(u.node, ast.AST) else None,
+                   f'unrecognised atom in the declaration conditions: {astx.src(u.node)}')
+        return
+    try:
+        fn, d, P, inloop = _perturb_modes(repo)
+    except Unknown as u:
+        out.unsure(repo.func(EC, 'ExecComp.compute_partials'), astx.stmt_of(u.node),
+                   f'unrecognised condition in compute_partials: {astx.src(u.node)}')
+        return
+    out.count('abstract_states', len(STATES))
+    seen = set()
+    nbad = 0
+
+    def bad(where, node, why, key):
+        nonlocal nbad
+        nbad += 1
+        if key not in seen:
+            seen.add(key)
+            out.bad(where, node, why, key=key)
+    for s in STATES:
+        H, (ia, isz), (oa, osz) = s
+        dk, pk = D[s], P[s]
+        if len(dk) != 1 or len(pk) != 1:
+            out.unsure(fdecl if len(dk) != 1 else fn, None, f'ambiguous outcome {sorted(dk)} / {sorted(pk)} for {_fmt_state(s)}')
+            return
+        dk, pk = next(iter(dk)), next(iter(pk))
+        if dk == 'none':
+            bad(fdecl, dl.inner, f'no partial is declared for {_fmt_state(s)}', 'declare-none')
+            continue
+        if pk == 'none':
+            bad(fn, inloop, f'input is not perturbed at all for {_fmt_state(s)}: its partials are never computed',
+                'perturb-none')
+            continue
+        if dk == 'raise' or pk == 'raise':
+            continue
+        if dk == 'diag' and not (H and isz > 1 and osz == isz):
+            why = 'without has_diag_partials' if not H else f'for a {osz} x {isz} block'
+            bad(fdecl, dl.inner, f'partial is declared diagonal {why} ({_fmt_state(s)})', 'diagonal-unsound')
+            continue
+        if pk == 'whole' and isz > 1 and dk != 'diag':
+            tag = 'has_diag' if H else 'no_diag'
+            bad(fn, inloop, f'for {_fmt_state(s)} the partial is declared DENSE ({osz} x {isz}) by _setup_partials but '
+                'compute_partials perturbs all elements of the input at once: every column receives the sum '
+                'of all columns', f'whole-perturbation-of-dense-partial:{tag},in>1,out={"1" if osz == 1 else "n"}')
+            continue
+        if pk == 'elem' and dk == 'diag':
+            bad(fn, inloop, f'for {_fmt_state(s)} the partial is declared diagonal but compute_partials writes '
+                'dense columns `[:, i]` into it', 'column-loop-on-diagonal-partial')
+            continue
+        if pk == 'elem' and isz == 1 and False:
+            pass
+    if not nbad:
+        out.ok(fn, inloop, f'declared kind and perturbation mode agree on {len(STATES)} abstract states')
+
+
+# =========================================================================== C14.sync
+def _is_inplace_full(t, rd, at, want):
+    """True if target t is `X[:]` with X resolving to path `want`."""
+    return isinstance(t, ast.Subscript) and _full_slice(t.slice) and rpath(rd, at, t.value) == want
+
+
+def _is_vec_array(e, rd, at, names):
+    """True if e is <vec>.asarray(...) with vec path in names (after alias resolution)."""
+    v, at2 = resolve(rd, at, e)
+    return isinstance(v, ast.Call) and astx.callee_attr(v) == 'asarray' and \
+        rpath(rd, at2, astx.receiver(v)) in names
+
+
+def _copy_flag(call):
+    """True / False / 'expr' / None(absent: vector.asarray default is copy=False)."""
+    c = astx.arg(call, 0, 'copy')
+    if c is None:
+        return False
+    if isinstance(c, ast.Constant) and isinstance(c.value, bool):
+        return c.value
+    return 'expr'
+
+
+@rule('C14.sync', floor=4)
+def sync(repo, out):
+    """The complex work arrays are filled in place from the current inputs before every evaluation, and compute() copies the result back into the output vector."""
+    for qn in ('ExecComp.compute_partials', 'ExecComp._compute_colored_partials'):
+        fn = repo.func(EC, qn)
+        d = Driver(fn)
+        g, rd = d.g, d.rd
+        syncs = [n for n in g.where(lambda n: n.kind == 'stmt' and isinstance(n.ast, ast.Assign)
+                                    and len(n.ast.targets) == 1)
+                 if _is_inplace_full(n.ast.targets[0], rd, n, 'self._inarray') and
+                 _is_vec_array(n.ast.value, rd, n, ('self._inputs', 'inputs'))]
+        rebinds = [n for n in g.where(lambda n: n.kind == 'stmt' and isinstance(n.ast, ast.Assign)
+                                      and len(n.ast.targets) == 1 and isinstance(n.ast.targets[0], ast.Name))
+                   if _is_vec_array(n.ast.value, rd, n, ('self._inputs', 'inputs')) and
+                   isinstance(n.ast.value, ast.Call)]
+        if not d.adds:
+            raise AnalysisError(f'{fn.ident}: no perturbation found')
+        if not syncs:
+            if rebinds:
+                out.bad(fn, rebinds[0].ast, 'the input values are bound to a local name instead of being copied '
+                        'into self._inarray: the complex views keep the inputs of an earlier point',
+                        key='input-sync')
+            else:
+                out.bad(fn, fn.node, 'self._inarray is not refreshed from self._inputs before the perturbations: '
+                        'partials are evaluated at a stale point', key='input-sync')
+            continue
+        w = None
+        for a in d.adds:
+            w = w or g.dominated_by(a, syncs, labels=cfgm.noexc)
+        if w is not None:
+            out.bad(fn, syncs[0].ast, 'a perturbation can run before self._inarray is refreshed from the '
+                    'inputs: ' + g.fmt_path(w), key='input-sync')
+            continue
+        # no perturbation / evaluation between entry and sync that would be overwritten is fine; but a
+        # sync inside a perturbation wipes the step
+        inside = [s_ for s_ in syncs for a in d.adds if s_ in d.region(a)]
+        if inside:
+            out.bad(fn, inside[0].ast, 'self._inarray is overwritten while a perturbation is in place',
+                    key='input-sync')
+            continue
+        out.ok(fn, syncs[0].ast, 'self._inarray[:] = inputs before the first perturbation')
+
+    # ---- compute()
+    fn = repo.func(EC, 'ExecComp.compute')
+    g = cfgm.build(fn)
+    rd = cfgm.ReachingDefs(g)
+    tests = g.where(lambda n: n.kind == 'test' and isinstance(n.ast, ast.If) and
+                    astx.path(n.ast.test) == 'self._relcopy')
+    ntests = g.where(lambda n: n.kind == 'test' and isinstance(n.ast, ast.If) and
+                     isinstance(n.ast.test, ast.UnaryOp) and isinstance(n.ast.test.op, ast.Not) and
+                     astx.path(n.ast.test.operand) == 'self._relcopy')
+    if len(tests) + len(ntests) != 1:
+        out.unsure(fn, fn.node, 'branch on self._relcopy not found in compute')
+        return
+    t = (tests or ntests)[0]
+    lab_copy, lab_direct = ('true', 'false') if tests else ('false', 'true')
+    execs = g.calling('_exec', recv='self')
+    syncs = [n for n in g.where(lambda n: n.kind == 'stmt' and isinstance(n.ast, ast.Assign) and len(n.ast.targets) == 1)
+             if _is_inplace_full(n.ast.targets[0], rd, n, 'self._inarray') and
+             _is_vec_array(n.ast.value, rd, n, ('self._inputs', 'inputs'))]
+
+    def is_back(n):
+        if not (n.kind == 'stmt' and isinstance(n.ast, ast.Assign) and len(n.ast.targets) == 1):
+            return False
+        tg = n.ast.targets[0]
+        if not (isinstance(tg, ast.Subscript) and _full_slice(tg.slice)):
+            return False
+        v = n.ast.value
+        if isinstance(v, ast.Attribute) and v.attr == 'real':
+            v = v.value
+        return rpath(rd, n, v) == 'self._outarray'
+    backs = g.where(is_back)
+    start = [m for m, lab in g.succ[t] if lab == lab_copy]
+    ends = [g.exit]
+    # relcopy branch: sync -> exec -> copy back on every path
+    okc = True
+    if not syncs or g.path(start, execs, avoid=syncs, labels=cfgm.noexc) is not None:
+        out.bad(fn, t.ast, 'with private complex arrays (self._relcopy) the expressions are evaluated without '
+                'copying the current inputs into self._inarray first: outputs of a stale point',
+                key='compute-sync')
+        okc = False
+    elif not execs or g.path(start, ends, avoid=execs, labels=cfgm.noexc) is not None:
+        out.bad(fn, t.ast, 'compute can return without evaluating the expressions', key='compute-exec')
+        okc = False
+    elif not backs or g.path([m for x in execs for m in g.normal_succ(x) if x in g.reach(start, labels=cfgm.noexc)],
+                             ends, avoid=backs, labels=cfgm.noexc) is not None:
+        out.bad(fn, t.ast, 'with private complex arrays the evaluated outputs are not copied back into the '
+                'output vector on every path', key='compute-copy-back')
+        okc = False
+    else:
+        late = set()
+        for b in backs:
+            late |= g.reach(g.normal_succ(b), labels=cfgm.noexc) & set(execs)
+        for s_ in syncs:
+            pass
+        for b in backs:
+            if g.path(start, [b], avoid=execs, labels=cfgm.noexc) is not None:
+                out.bad(fn, b.ast, 'outputs are copied back before the expressions are evaluated',
+                        key='compute-copy-back')
+                okc = False
+                break
+    if okc:
+        # destination of the copy-back is the live output array, not a copy
+        for b in backs:
+            tg = b.ast.targets[0].value
+            v, at2 = resolve(rd, b, tg)
+            if isinstance(v, ast.Call) and astx.callee_attr(v) == 'asarray' and \
+                    rpath(rd, at2, astx.receiver(v)) in ('outputs', 'self._outputs'):
+                cf = _copy_flag(v)
+                if cf is True:
+                    out.bad(fn, astx.stmt_of(v), 'the results are written into a COPY of the output vector '
+                            '(asarray(copy=True)): the outputs never change', key='compute-copy-back')
+                    okc = False
+                elif cf == 'expr':
+                    out.unsure(fn, astx.stmt_of(v), 'copy flag of the destination is not a literal')
+                    okc = False
+            elif astx.path(v) in ('outputs', 'self._outputs') or \
+                    (isinstance(v, ast.Attribute) and astx.path(v.value) in ('outputs', 'self._outputs')):
+                pass
+            else:
+                out.unsure(fn, b.ast, 'destination of the copy-back is not the output vector')
+                okc = False
+    if okc:
+        out.ok(fn, t.ast, 'relcopy: inarray[:] = inputs -> _exec() -> outputs[:] = outarray')
+    # direct branch: exec on every path
+    start2 = [m for m, lab in g.succ[t] if lab == lab_direct]
+    if g.path(start2, ends, avoid=execs, labels=cfgm.noexc) is not None:
+        out.bad(fn, t.ast, 'compute can return without evaluating the expressions (shared-array branch)',
+                key='compute-exec')
+    else:
+        out.ok(fn, t.ast, 'shared arrays: _exec() on every path')
+
+
+# =========================================================================== C14.coloring
+@rule('C14.coloring', floor=3)
+def coloring(repo, out):
+    """The sparsity pass of _compute_coloring perturbs every input element, records column i for element i, and leaves the input vector as it found it."""
+    fn = repo.func(EC, 'ExecComp._compute_coloring')
+    d = Driver(fn)
+    g, rd = d.g, d.rd
+    if len(d.adds) != 1:
+        raise AnalysisError(f'{fn.ident}: expected one perturbation, found {len(d.adds)}')
+    a = d.adds[0]
+    tgt = a.ast.target
+    # ---- column bookkeeping
+    if not (isinstance(tgt, ast.Subscript) and isinstance(tgt.slice, ast.Name) and d.view_kind(tgt, a) == 'inarr'):
+        out.unsure(fn, a.ast, 'sparsity perturbation is not `inarr[i] += step`')
+        return
+    iv = tgt.slice.id
+    loop = _loop_of_target(iv, a, rd)
+    if loop is None or not (isinstance(loop.iter, ast.Call) and astx.call_name(loop.iter) == 'range'
+                            and len(loop.iter.args) == 1):
+        out.unsure(fn, a.ast, 'element loop is not `for i in range(n)`')
+        return
+    nexp = loop.iter.args[0]
+    hn = g.nodes_of(loop)[0]
+    arr = None
+    if isinstance(nexp, ast.Attribute) and nexp.attr == 'size':
+        arr = nexp.value
+    elif isinstance(nexp, ast.Call) and astx.call_name(nexp) == 'len' and len(nexp.args) == 1:
+        arr = nexp.args[0]
+    ap = rpath(rd, hn, arr) if arr is not None else None
+    if ap in ('self._inarray', 'self._inputs'):
+        pass
+    elif ap in ('self._outarray', 'self._outputs'):
+        out.bad(fn, loop, f'the sparsity loop runs over the {ap} size: input columns are skipped (or the index '
+                'overruns) when the numbers of inputs and outputs differ', key='sparsity-columns')
+        return
+    else:
+        out.unsure(fn, loop, 'bound of the sparsity loop not recognised')
+        return
+    setc = [n for n in d.region(a) if n.kind == 'stmt' and any(astx.callee_attr(c) == 'set_col' for c in n.calls())]
+    if len(setc) != 1:
+        out.bad(fn, a.ast, 'no (or more than one) jac.set_col while the perturbation is in place: the sparsity '
+                'misses this column', key='sparsity-columns')
+        return
+    c = [c for c in setc[0].calls() if astx.callee_attr(c) == 'set_col'][0]
+    ci = astx.arg(c, 1, 'icol')
+    if not (isinstance(ci, ast.Name) and ci.id == iv):
+        out.bad(fn, setc[0].ast, f'column `{astx.src(ci)}` is recorded for the perturbation of element `{iv}`',
+                key='sparsity-columns')
+        return
+    out.ok(fn, setc[0].ast, 'column i recorded for perturbed element i, i over all input elements')
+
+    # ---- snapshot / restore of the input vector
+    snaps = [n for n in g.where(lambda n: n.kind == 'stmt' and isinstance(n.ast, ast.Assign) and
+                                len(n.ast.targets) == 1 and isinstance(n.ast.targets[0], ast.Name))
+             if isinstance(n.ast.value, ast.Call) and astx.callee_attr(n.ast.value) == 'asarray' and
+             rpath(rd, n, astx.receiver(n.ast.value)) == 'self._inputs']
+    restores = [n for n in g.where(lambda n: n.kind == 'stmt')
+                if any(astx.callee_attr(c) == 'set_val' and astx.path(astx.receiver(c)) == 'self._inputs'
+                       for c in n.calls())]
+    if len(snaps) != 1:
+        out.unsure(fn, fn.node, 'snapshot of the inputs not recognised')
+        return
+    sn = snaps[0]
+    sname = sn.ast.targets[0].id
+    cexp = astx.arg(sn.ast.value, 0, 'copy')
+
+    def relcopy_eval(e, rel):
+        if e is None:
+            return False
+        if isinstance(e, ast.Constant) and isinstance(e.value, bool):
+            return e.value
+        if astx.path(e) == 'self._relcopy':
+            return rel
+        if isinstance(e, ast.UnaryOp) and isinstance(e.op, ast.Not):
+            return not relcopy_eval(e.operand, rel)
+        raise Unknown(e)
+    try:
+        for rel in (False, True):
+            is_copy = relcopy_eval(cexp, rel)
+            # is the restore executed?  walk from the loop exit
+            restored = False
+            rs = [r for r in restores if any(isinstance(x, ast.Name) and x.id == sname for c in r.calls()
+                                             for x in c.args)]
+            for r in rs:
+                conds = [x for x in astx.ancestors(r.ast) if isinstance(x, ast.If)]
+                val = True
+                for cnd in conds:
+                    v = relcopy_eval(cnd.test, rel)
+                    val = val and (v if r.ast in list(astx.walk_stmts(cnd.body)) else not v)
+                if val:
+                    restored = True
+            if not rel:
+                # inarr IS the complex storage of self._inputs: the random sparsity points overwrite it
+                if not is_copy:
+                    out.bad(fn, sn.ast, 'when the complex arrays are the vectors\' own storage (not self._relcopy) '
+                            f'`{sname}` must be a copy: as a view it follows the random sparsity points and the '
+                            'restore is a no-op, the model continues from random inputs', key='inputs-not-restored')
+                    return
+                if not restored:
+                    out.bad(fn, sn.ast, 'when the complex arrays are the vectors\' own storage (not self._relcopy) '
+                            'the inputs are not restored after the sparsity pass: the model continues from '
+                            'random inputs', key='inputs-not-restored')
+                    return
+    except Unknown as u:
+        out.unsure(fn, astx.stmt_of(u.node), f'condition not recognised: {astx.src(u.node)}')
+        return
+    # restore after the loops, before any return
+    outer = loops_around(a.ast)[-1]
+    ohdr = g.nodes_of(outer)[0]
+    rs = [r for r in restores]
+    for r in rs:
+        if r in g.body_nodes(outer):
+            out.bad(fn, r.ast, 'inputs are restored inside the sparsity loop', key='inputs-not-restored')
+            return
+    after = [m for m, lab in g.succ[ohdr] if lab == 'false']
+    edge_ok = None
+    gd = [x for r in rs for x in astx.ancestors(r.ast) if isinstance(x, ast.If)]
+    if gd:
+        tdump = astx.dump(gd[0].test)
+        want_true = rs[0].ast in list(astx.walk_stmts(gd[0].body))
+        edge_ok = cfgm.CFG.assume(tdump, want_true)
+    w = g.path(after, [g.exit], avoid=rs, labels=cfgm.noexc, edge_ok=edge_ok)
+    if w is not None:
+        out.bad(fn, rs[0].ast, 'a path leaves _compute_coloring after the sparsity pass without restoring the '
+                'inputs: ' + g.fmt_path(w), key='inputs-not-restored')
+        return
+    out.ok(fn, sn.ast, 'inputs snapshot is a copy and is restored whenever the complex array aliases the vector')
+
+    # ---- offsets must not alias the snapshot (it is modified in place)
+    mods = [n for n in g.where(lambda n: n.kind == 'stmt' and isinstance(n.ast, (ast.AugAssign, ast.Assign)))
+            if any(isinstance(t, (ast.Subscript, ast.Name)) and root_name(t) is not None
+                   and isinstance(n.ast, ast.AugAssign) or isinstance(t, ast.Subscript)
+                   for t in astx.assigned_targets(n.ast))]
+    aliased = None
+    for n in mods:
+        for t in astx.assigned_targets(n.ast):
+            r = root_name(t)
+            if r is None or r.id == sname:
+                if r is not None and r.id == sname and (isinstance(t, ast.Subscript) or isinstance(n.ast, ast.AugAssign)):
+                    aliased = (n, 'the snapshot itself is modified in place')
+                continue
+            if not (isinstance(t, ast.Subscript) or isinstance(n.ast, ast.AugAssign)):
+                continue
+            v, at2 = resolve(rd, n, ast.Name(id=r.id, ctx=ast.Load()))
+            if isinstance(v, ast.Name) and v.id == sname:
+                aliased = (n, f'`{r.id}` is the snapshot `{sname}` itself, not a copy')
+            elif isinstance(v, ast.Call) and astx.call_name(v) in ('np.asarray', 'numpy.asarray') and \
+                    v.args and isinstance(v.args[0], ast.Name) and v.args[0].id == sname:
+                aliased = (n, f'`{r.id}` is np.asarray of the snapshot: no copy is made')
+    if aliased:
+        out.bad(fn, aliased[0].ast, f'{aliased[1]}: the in-place update changes the saved inputs (and, with private '
+                'complex arrays, the input vector itself)', key='offsets-alias')
+        return
+    out.ok(fn, sn.ast, 'perturbation offsets are computed on a copy of the snapshot')
+
+
+# =========================================================================== C14.views
+@rule('C14.views', floor=9)
+def views(repo, out):
+    """_setup_vectors pairs inputs with _inarray / _indict and outputs with _outarray / outdict, takes them in complex mode, and sets _relcopy exactly when the arrays are private."""
+    fn = repo.func(EC, 'ExecComp._setup_vectors')
+    g = cfgm.build(fn)
+    rd = cfgm.ReachingDefs(g)
+    tests = [n for n in g.where(lambda n: n.kind == 'test' and isinstance(n.ast, ast.If))
+             if astx.path(n.ast.test) == 'self._force_alloc_complex']
+    if len(tests) != 1:
+        out.unsure(fn, fn.node, 'branch on self._force_alloc_complex not found')
+        return
+    br = tests[0].ast
+    SIDE = {'self._indict': 'in', 'self._inarray': 'in', 'self._outarray': 'out', 'outdict': 'out'}
+    VEC = {'in': 'self._inputs', 'out': 'self._outputs'}
+    ARR = {'in': 'self._inarray', 'out': 'self._outarray'}
+    for label, body in (('shared', br.body), ('private', br.orelse)):
+        found = {}
+        for st in astx.walk_stmts(body):
+            if not (isinstance(st, ast.Assign) and len(st.targets) == 1):
+                continue
+            p = astx.path(st.targets[0])
+            if p not in SIDE:
+                continue
+            found[p] = st
+            side = SIDE[p]
+            v = st.value
+            n = g.nodes_of(st)[0]
+            if p in ('self._indict', 'outdict'):
+                if not (isinstance(v, ast.Call) and astx.callee_attr(v) == '_get_local_views'):
+                    out.unsure(fn, st, 'views are not taken with _get_local_views')
+                    continue
+                rv = astx.path(astx.receiver(v))
+                if rv != VEC[side]:
+                    out.bad(fn, st, f'{p} takes its views from {rv} instead of {VEC[side]}', key='views-pairing')
+                    continue
+                a0 = astx.arg(v, 0, 'arr')
+                if label == 'private':
+                    if a0 is None:
+                        out.bad(fn, st, f'{p} views the real vector storage, not the private complex array '
+                                f'{ARR[side]}: complex steps are lost', key='views-pairing')
+                        continue
+                    if astx.path(a0) != ARR[side]:
+                        out.bad(fn, st, f'{p} views {astx.path(a0)} instead of {ARR[side]}: input and output '
+                                'views alias or have the wrong layout', key='views-pairing')
+                        continue
+                elif a0 is not None:
+                    out.unsure(fn, st, 'explicit array in the shared-storage branch')
+                    continue
+                out.ok(fn, st, f'[{label}] {p} = views of {VEC[side]}' + (f' into {ARR[side]}' if a0 is not None else ''))
+            else:
+                if label == 'shared':
+                    okv = isinstance(v, ast.Call) and astx.callee_attr(v) == 'asarray'
+                    if not okv:
+                        out.unsure(fn, st, 'shared array is not <vector>.asarray(...)')
+                        continue
+                    rv = astx.path(astx.receiver(v))
+                    if rv != VEC[side]:
+                        out.bad(fn, st, f'{p} is the storage of {rv} instead of {VEC[side]}', key='views-pairing')
+                        continue
+                    if _copy_flag(v) is not False:
+                        out.bad(fn, st, f'{p} is a copy of the vector storage: results never reach the vector',
+                                key='views-pairing')
+                        continue
+                else:
+                    okv = isinstance(v, ast.Call) and astx.call_name(v) in ('np.zeros', 'numpy.zeros', 'np.empty',
+                                                                            'np.ones') and v.args
+                    if not okv:
+                        out.unsure(fn, st, 'private array is not np.zeros(len(<vector>), dtype=complex)')
+                        continue
+                    sz = v.args[0]
+                    szv = astx.path(sz.args[0]) if isinstance(sz, ast.Call) and astx.call_name(sz) == 'len' and sz.args else None
+                    if szv != VEC[side]:
+                        if szv in VEC.values():
+                            out.bad(fn, st, f'{p} has the length of {szv} instead of {VEC[side]}', key='views-pairing')
+                        else:
+                            out.unsure(fn, st, 'size of the private array not recognised')
+                        continue
+                    dt = astx.kwarg(v, 'dtype')
+                    if not (isinstance(dt, ast.Name) and dt.id == 'complex' or astx.path(dt) in
+                            ('np.complex128', 'numpy.complex128', 'np.cdouble')):
+                        out.bad(fn, st, f'{p} is not a complex array: the complex step cannot be stored',
+                                key='views-dtype')
+                        continue
+                out.ok(fn, st, f'[{label}] {p} belongs to {VEC[side]}')
+        missing = set(SIDE) - set(found)
+        if missing:
+            out.bad(fn, br, f'[{label}] {sorted(missing)} not set in this branch', key='views-pairing')
+        # _relcopy
+        sets = [st for st in astx.walk_stmts(body) if isinstance(st, ast.Assign) and
+                any(astx.path(t) == 'self._relcopy' for t in st.targets)]
+        val = None
+        if sets:
+            v = sets[-1].value
+            val = v.value if isinstance(v, ast.Constant) else '?'
+        if label == 'private':
+            if val is not True:
+                out.bad(fn, br, 'self._relcopy is not set to True although the complex arrays are private copies: '
+                        'compute() then neither copies the inputs in nor the outputs back', key='relcopy-flag')
+            else:
+                out.ok(fn, sets[-1], 'private arrays -> self._relcopy = True')
+        elif val not in (None, False):
+            out.bad(fn, sets[-1], 'self._relcopy set although the arrays are the vectors\' own storage',
+                    key='relcopy-flag')
+    # default False before the branch
+    dflt = [n for n in g.where(lambda n: n.kind == 'stmt' and isinstance(n.ast, ast.Assign))
+            if any(astx.path(t) == 'self._relcopy' for t in n.ast.targets) and
+            isinstance(n.ast.value, ast.Constant) and n.ast.value.value is False]
+    if not dflt or g.dominated_by(tests[0], dflt, labels=cfgm.noexc) is not None:
+        out.bad(fn, br, 'self._relcopy is not reset to False before the arrays are chosen', key='relcopy-flag')
+    # complex-step mode bracket in the shared branch
+    for vec in ('self._inputs', 'self._outputs'):
+        def mode(n, val):
+            return any(astx.callee_attr(c) == 'set_complex_step_mode' and astx.path(astx.receiver(c)) == vec
+                       and c.args and isinstance(c.args[0], ast.Constant) and c.args[0].value is val
+                       for c in n.calls())
+        on = [n for n in g.where(lambda n: n.kind == 'stmt') if mode(n, True)]
+        off = [n for n in g.where(lambda n: n.kind == 'stmt') if mode(n, False)]
+        users = [n for n in g.where(lambda n: n.kind == 'stmt') if g.inside(n, br, 'body') and
+                 any(astx.callee_attr(c) in ('asarray', '_get_local_views') and astx.path(astx.receiver(c)) == vec
+                     for c in n.calls())]
+        if not users:
+            continue
+        problem = None
+        for u in users:
+            if not on or g.dominated_by(u, on, labels=cfgm.noexc) is not None:
+                problem = (u, f'{vec} is read outside complex-step mode: the REAL storage is used and every '
+                              'imaginary part is lost (all partials zero)')
+            elif any(u in g.reach(g.normal_succ(o), labels=cfgm.noexc) for o in off):
+                problem = (u, f'{vec} is read after complex-step mode was switched off again')
+        if problem is None:
+            if not off or g.path([m for o in on for m in g.normal_succ(o)], [g.exit], avoid=off,
+                                 labels=cfgm.noexc) is not None:
+                problem = (on[0], f'{vec} is left in complex-step mode after _setup_vectors')
+        if problem:
+            out.bad(fn, problem[0].ast, problem[1], key='views-complex-mode')
+        else:
+            out.ok(fn, on[0].ast, f'{vec}: complex mode on -> views/array taken -> off')
+
+
+# =========================================================================== C14.exec
+@rule('C14.exec', floor=6)
+def exec_sites(repo, out):
+    """Every compiled expression is executed against the function table with the complex views (_exec) or the real vectors (compute); results are stored in place."""
+    mod = repo.module(EC)
+    want = {'ExecComp._exec': 'self._viewdict', 'ExecComp.compute': 'self._iodict'}
+    for qn, loc in want.items():
+        fn = repo.func(EC, qn)
+        g = cfgm.build(fn)
+        calls = [(n, c) for n in g.where(lambda n: n.kind == 'stmt') for c in n.calls()
+                 if isinstance(c.func, ast.Name) and c.func.id == 'exec']
+        if len(calls) != 1:
+            out.unsure(fn, fn.node, f'expected one exec() call, found {len(calls)}')
+            continue
+        n, c = calls[0]
+        if len(c.args) != 3:
+            out.bad(fn, n.ast, 'exec() without explicit globals and locals', key='exec-namespace')
+            continue
+        if astx.path(c.args[1]) != '_expr_dict':
+            out.bad(fn, n.ast, f'expressions are evaluated with globals `{astx.src(c.args[1])}` instead of the '
+                    'function table _expr_dict', key='exec-namespace')
+            continue
+        lp = astx.path(c.args[2])
+        if lp != loc:
+            other = [v for v in want.values() if v != loc][0]
+            if lp == other and qn.endswith('_exec'):
+                out.bad(fn, n.ast, '_exec evaluates on the real vectors (self._iodict): the complex perturbation '
+                        'of self._inarray is never seen, all partials are zero', key='exec-namespace')
+            elif lp == other:
+                out.bad(fn, n.ast, 'the declared-partials path evaluates on self._viewdict, which does not exist '
+                        'in that mode', key='exec-namespace')
+            else:
+                out.unsure(fn, n.ast, f'locals of exec() is `{lp}`')
+            continue
+        ls = loops_around(n.ast)
+        if not (ls and isinstance(ls[0], ast.For)):
+            out.unsure(fn, n.ast, 'exec() is not in a loop over self._codes')
+            continue
+        it = ls[0].iter
+        inner = it.args[0] if isinstance(it, ast.Call) and astx.call_name(it) == 'enumerate' and it.args else it
+        if astx.path(inner) != 'self._codes':
+            out.bad(fn, ls[0], f'the loop runs over `{astx.src(inner)}`, not over all of self._codes',
+                    key='exec-all-codes')
+            continue
+        code = c.args[0]
+        tv = ls[0].target.elts[-1] if isinstance(ls[0].target, ast.Tuple) else ls[0].target
+        if not (isinstance(code, ast.Name) and isinstance(tv, ast.Name) and code.id == tv.id):
+            out.unsure(fn, n.ast, 'executed object is not the loop variable')
+            continue
+        skip = [s for s in astx.walk_stmts(ls[0].body) if isinstance(s, (ast.Break, ast.Continue, ast.Return))]
+        if skip:
+            out.bad(fn, skip[0], 'some expressions are skipped', key='exec-all-codes')
+            continue
+        out.ok(fn, n.ast, f'exec(code, _expr_dict, {loc}) for every code')
+    # _IODict construction order
+    init = repo.func(EC, '_IODict.__init__')
+    params = [a.arg for a in init.node.args.args[1:]]
+    for qn in ('ExecComp._setup_vectors', 'ExecComp.compute'):
+        fn = repo.func(EC, qn)
+        for c in astx.calls(fn.node):
+            if astx.call_name(c) != '_IODict':
+                continue
+            if len(c.args) != len(params) or c.keywords:
+                out.unsure(fn, astx.stmt_of(c), '_IODict call shape not recognised')
+                continue
+            names = [(astx.path(a) or '').split('.')[-1].lstrip('_') for a in c.args]
+            if names == params:
+                out.ok(fn, astx.stmt_of(c), f'_IODict({", ".join(params)})')
+            elif sorted(names) == sorted(params):
+                out.bad(fn, astx.stmt_of(c), f'_IODict expects ({", ".join(params)}) but is given ({", ".join(names)})',
+                        key='iodict-args')
+            else:
+                out.unsure(fn, astx.stmt_of(c), '_IODict arguments not recognised')
+    # in-place stores
+    for qn, dest in (('_ViewDict.__setitem__', None), ('_IODict.__setitem__', 'self._outputs')):
+        fn = repo.func(EC, qn)
+        g = cfgm.build(fn)
+        rd = cfgm.ReachingDefs(g)
+        vparam = fn.node.args.args[2].arg
+        nparam = fn.node.args.args[1].arg
+
+        def derived(e, at, depth=0):
+            if depth > 4:
+                return False
+            if isinstance(e, ast.Name):
+                if e.id == vparam:
+                    return True
+                v, at2 = resolve(rd, at, e)
+                return v is not e and derived(v, at2, depth + 1)
+            if isinstance(e, ast.Call) and astx.call_name(e) in ('np.squeeze', 'numpy.squeeze', 'np.asarray',
+                                                                 'np.reshape') and e.args:
+                return derived(e.args[0], at, depth + 1)
+            return False
+
+        def is_store(n):
+            if not (n.kind == 'stmt' and isinstance(n.ast, ast.Assign) and len(n.ast.targets) == 1):
+                return False
+            t = n.ast.targets[0]
+            if not isinstance(t, ast.Subscript) or not derived(n.ast.value, n):
+                return False
+            if _full_slice(t.slice) and isinstance(t.value, ast.Name):
+                # view[:] = value : the view must come from the dict entry `name`
+                ds = rd.defs(n, t.value.id)
+                for dn in ds:
+                    if not (dn.kind == 'stmt' and isinstance(dn.ast, ast.Assign)):
+                        return False
+                    v = dn.ast.value
+                    if not (isinstance(v, ast.Subscript) and isinstance(v.slice, ast.Name) and v.slice.id == nparam):
+                        return False
+                return bool(ds)
+            if isinstance(t.slice, ast.Name) and t.slice.id == nparam and dest and astx.path(t.value) == dest:
+                return True
+            return False
+        stores = g.where(is_store)
+        rebind = [n for n in g.where(lambda n: n.kind == 'stmt' and isinstance(n.ast, ast.Assign)
+                                     and len(n.ast.targets) == 1 and isinstance(n.ast.targets[0], ast.Name))
+                  if derived(n.ast.value, n) and isinstance(n.ast.value, ast.Name) and n.ast.value.id == vparam]
+        w = g.path([g.entry], [g.exit], avoid=stores, labels=cfgm.noexc)
+        if rebind and w is not None:
+            out.bad(fn, rebind[0].ast, f'`{astx.src(rebind[0].ast)}` rebinds a local name: the array the outputs '
+                    'live in is not written', key='store-in-place')
+        elif w is not None:
+            out.bad(fn, fn.node, 'an assignment in an expression can complete without writing the value into the '
+                    'output array: ' + g.fmt_path(w), key='store-in-place')
+        else:
+            out.ok(fn, stores[0].ast, 'every normal path stores the value in place under the assigned name')
+
+
+# =========================================================================== C14.table
+# numpy callables whose complex version is not the analytic continuation of the real function: the complex
+# step through them is wrong (silently) or fails.  They may only enter the table through cs_safe.
+NONANALYTIC = {'abs': 'modulus: imag part 0 -> derivative 0', 'absolute': 'modulus', 'fabs': 'no complex loop',
+               'arctan2': 'no complex loop', 'sign': 'z/|z| for complex', 'vdot': 'conjugates its first argument',
+               'conj': 'conjugation', 'conjugate': 'conjugation', 'real': 'drops the step', 'imag': 'drops the value',
+               'angle': 'phase', 'hypot': 'no complex loop', 'floor': 'no complex loop', 'ceil': 'no complex loop',
+               'norm': 'uses the modulus', 'heaviside': 'no complex loop', 'copysign': 'no complex loop'}
+ALIASES = {'arcsin': 'asin', 'arccos': 'acos', 'arctan': 'atan', 'arcsinh': 'asinh', 'arccosh': 'acosh',
+           'arctanh': 'atanh'}
+
+
+@rule('C14.table', floor=3)
+def table(repo, out):
+    """No non-analytic numpy/scipy function enters _expr_dict unwrapped (abs and arctan2 come from cs_safe); aliases name the same function."""
+    mod = repo.module(EC)
+    final = {}   # name -> (source string, stmt)
+    n_imports = 0
+    for st in mod.tree.body if False else ast.walk(mod.tree):
+        pass
+    stmts = []
+    for st in mod.tree.body:
+        stmts.append(st)
+        if isinstance(st, ast.Try):
+            stmts.extend(st.orelse)
+            stmts.extend(st.body)
+    for st in stmts:
+        if isinstance(st, ast.Expr) and isinstance(st.value, ast.Call) and astx.call_name(st.value) == '_import_functs':
+            c = st.value
+            src = astx.path(c.args[0]) if c.args else None
+            if len(c.args) < 2 or astx.path(c.args[1]) != '_expr_dict':
+                continue
+            names = astx.kwarg(c, 'names') or (c.args[2] if len(c.args) > 2 else None)
+            if not isinstance(names, (ast.List, ast.Tuple)):
+                out.unsure(EC, st, 'function names are not a literal list (whole module imported?)')
+                continue
+            n_imports += 1
+            for e in names.elts:
+                if astx.const_str(e) is not None:
+                    final[e.value] = (f'{src}.{e.value}', st)
+                elif isinstance(e, ast.Tuple) and len(e.elts) == 2 and all(astx.const_str(x) for x in e.elts):
+                    nm, al = e.elts[0].value, e.elts[1].value
+                    final[nm] = (f'{src}.{nm}', st)
+                    final[al] = (f'{src}.{nm}', st)
+                    if ALIASES.get(nm) == al:
+                        out.ok(EC, st, f'alias {al} = {nm}')
+                    elif al in ALIASES.values() or al in ALIASES or nm in ALIASES:
+                        out.bad(EC, st, f"alias '{al}' is bound to {src}.{nm}: expressions using {al}() evaluate "
+                                f"{nm}()", key=f'alias:{al}')
+                    else:
+                        out.unsure(EC, st, f'alias pair ({nm}, {al}) is not in the frozen alias table')
+                else:
+                    out.unsure(EC, st, 'entry of the names list not recognised')
+        elif isinstance(st, ast.Assign) and len(st.targets) == 1 and isinstance(st.targets[0], ast.Subscript) and \
+                astx.path(st.targets[0].value) == '_expr_dict' and astx.const_str(st.targets[0].slice):
+            final[st.targets[0].slice.value] = (astx.path(st.value) or astx.src(st.value), st)
+    if not n_imports:
+        raise AnalysisError('no _import_functs(<module>, _expr_dict, names=[...]) call found')
+    out.count('table_entries', len(final))
+    nbad = 0
+    for nm, (src, st) in sorted(final.items()):
+        base = src.rsplit('.', 1)[-1]
+        if nm in NONANALYTIC or base in NONANALYTIC:
+            key = nm if nm in NONANALYTIC else base
+            if src.startswith('cs_safe.'):
+                if base == nm:
+                    out.ok(EC, st, f"'{nm}' comes from cs_safe")
+                else:
+                    out.bad(EC, st, f"'{nm}' is bound to {src}", key=f'table:{nm}')
+                    nbad += 1
+            elif src.startswith(('np.', 'numpy.', 'scipy.')):
+                out.bad(EC, st, f"'{nm}' is bound to {src}, which is not complex-analytic ({NONANALYTIC[key]}): "
+                        'complex-step partials of expressions using it are wrong', key=f'table:{nm}')
+                nbad += 1
+            else:
+                out.unsure(EC, st, f"'{nm}' is bound to {src}")
+    for need in ('abs', 'arctan2'):
+        if need not in final:
+            out.unsure(EC, None, f"'{need}' is no longer in the function table")
+    if not nbad:
+        out.ok(EC, mod.tree.body[0], f'{len(final)} table entries: none of the non-analytic functions is bound to '
+               'numpy/scipy directly')
